@@ -321,6 +321,14 @@ def run(repo, rep):
         rep.check(not p5b, 'C11.Q5b', 'applicationentity:AEBase.add_scu:override', fn.loc(),
                   'explicit list first, the service\'s own list as the fall-back (%d allocation site(s))' % len(allocs), '; '.join(sorted(set(p5b))))
 
+    # ---------------------------------------------------------------- Q2c: the entity's own maximum, 0 included
+    rep.rule('C11.Q2c', 'the maximum PDU length the request carries is the entity\'s configured one: the association takes it over '
+             'unchanged -- chosen by ``is None`` tests, never by truth, so that a configured 0 (no limit) is announced as 0 (same '
+             'analysis as C10.X9)', 1)
+    from .c10 import limit_selection_problems
+    lp_, nl_ = limit_selection_problems(repo, hier)
+    rep.check(not lp_, 'C11.Q2c', 'asceprovider:Association.__init__:limit-selection', repo.cls('asceprovider', 'Association').loc(),
+              '%d store(s) of the starting limit, none chosen by truthiness' % nl_, '; '.join(lp_))
     # ---------------------------------------------------------------- Q2
     req = rq.find_method('_request')
     rep.analysed(req)
